@@ -5,12 +5,7 @@ import ExaModel.Props.C17
 #print axioms Exa.Props.C17.reload_delta_restart
 #print axioms Exa.Props.C17.reload_delta_new
 #print axioms Exa.Props.C17.deltaView_spec
-#print axioms Exa.Props.C17.reload_fail_atomic_partial
-#print axioms Exa.Props.C17.reload_fail_first_line
-#print axioms Exa.Props.C17.reload_fail_keeps_peers
-#print axioms Exa.Props.C17.reload_fail_leaks_routes
-#print axioms Exa.Props.C17.reload_fail_leaks_routes_down
-#print axioms Exa.Props.C17.reload_missing_file_wipes
-#print axioms Exa.Props.C17.reload_missing_file_breaks_api
-#print axioms Exa.Props.C17.reload_after_failure_refused
-#print axioms Exa.Props.C17.reload_fail_atomic_false
+#print axioms Exa.Props.C17.reload_fail_atomic
+#print axioms Exa.Props.C17.reload_fail_sends_nothing
+#print axioms Exa.Props.C17.reload_fail_api_works
+#print axioms Exa.Props.C17.reload_after_failure_ok
